@@ -31,11 +31,16 @@ REFINED = ["Repr::simplest_in (continued-fraction descent: soundness, simultaneo
            "RoundsTo = builder-float's specRound (C03): ilogQ is floor(log_B), ulpExp = binade - precision "
            "(Props/C18Link: ulpExp_is_binade_minus_precision, rounds_to_is_spec_round, simplest_from_fbig_spec_round)",
            "RBig::simplest_from_float entry point (rbigSimplestFromFloat, executed by the driver for every case): None iff the float "
-           "is infinite, zero -> 0, unlimited precision -> the number itself (simplest_from_fbig_none_iff_infinite, "
-           "simplest_from_fbig_unlimited); equal to the regenerated early-return skeleton (Props/C18Gen.entry_is_skeleton)",
+           "is infinite, zero -> 0, unlimited precision -> the number itself for EVERY mode and every switch setting (code = required since the "
+           "round-6 repair proposed_fixes/c18-simplest-from-float-unlimited.diff: simplest_from_fbig_none_iff_infinite, "
+           "simplest_from_fbig_unlimited); equal to the regenerated early-return skeleton incl. the `f.precision() == 0` return "
+           "(Props/C18Gen.entry_is_skeleton, unlimited_path_is_exact — the latter is false for a source without that return)",
            "float/src/round.rs ErrorBounds (all six modes) and the half-ulp formula, Tie A: regenerated decision tables "
            "(Gen/ErrorBounds.lean, vlib/extract_errorbounds.py) proved equal to the code side of the model for every base, mode, sign, "
-           "parity (Props/C18Gen: code_rounding_set_is_error_bounds, error_bounds_unlimited, code_unlimited_is_error_bounds)",
+           "parity (Props/C18Gen: code_rounding_set_is_error_bounds, error_bounds_unlimited); since round 6 ALSO driven directly: op eb.bounds calls "
+           "<R as ErrorBounds>::error_bounds(&f) and compares L, R, incl_L, incl_R with errorBoundsFBig, whose code side is proved to be "
+           "the regenerated table for positive and negative floats (error_bounds_model_is_tables, error_bounds_model_unlimited) and whose "
+           "required side is proved to be the two ends + flags of the rounding set (Props/C18.error_bounds_required_is_rounding_set)",
            "impl_simplest_from_float! (simplest_from_f32/f64), Tie A: below / center / above / shifts / parity test regenerated from "
            "the macro body and proved equal to the model's roundingInterval and parity rule for every format "
            "(Props/C18Gen: rounding_interval_is_macro, min_exp_f32_f64, ends_allowed_is_mantissa_parity)",
@@ -45,14 +50,14 @@ REFINED = ["Repr::simplest_in (continued-fraction descent: soundness, simultaneo
            "condition): code_set_is_rounding_set_on_class, code_optimal_on_class — the complement of the recorded finding as a theorem",
            "Repr::cmp used by the model (cmpQ) = the regenerated repr_cmp of rational/src/cmp.rs (Props/C18Link.cmpQ_is_regenerated_repr_cmp, "
            "composition with Props/GenRatCmp and C14's ratReprCmp_spec)"]
-FRONTIER = ["the correspondence model <-> code of simplest_from_float (FBig) is by FOUR named deviation switches (uniformUlp, ceilHalf, "
-            "oddIncl, panicUnlimited: the code's ErrorBounds is defective, recorded finding; each switch is tied to the regenerated "
+FRONTIER = ["the correspondence model <-> code of simplest_from_float (FBig) is by THREE named deviation switches (uniformUlp, ceilHalf, "
+            "oddIncl: the code's ErrorBounds is defective, recorded finding; each switch is tied to the regenerated "
             "source table by Props/C18Gen); the optimality theorems are about the required behaviour (Quirks.none)",
             "an FBig whose significand has more digits than its context precision (constructible with FBig::from_repr only) is "
             "outside the statement: no number rounds to it at that precision (model: malformed input, never generated)",
             "precisions / exponents beyond a few thousand digits are not driven: RBig materialises B^|exponent| and the model "
             "B^(precision - digits), memory proportional to the argument; at precision >= 2^63 the code itself breaks (FBig::ulp casts the precision to isize, "
-            "float/src/fbig.rs:402; `precision + 1` overflows at usize::MAX, dashu_float.rs:191): reported, not driven",
+            "float/src/fbig.rs:402; `precision + 1` overflows at usize::MAX, dashu_float.rs:198): reported, not driven",
             "next_up / next_down / an inexact nearest with limits beyond ~3000 are not driven: farey_neighbors is linear in limit "
             "(theorems cover every limit); nearest with multi-word limits is driven on its Exact arm",
             "IBig multiplication / addition / shifts inside the descent and the interval construction are Lean Int arithmetic "
@@ -70,9 +75,10 @@ RULE = ("simplest_in: end points from {small fractions, neighbours in a Farey se
         "every power of two, subnormals, least/greatest finite, even/odd mantissas, exponents on both sides of the "
         "mantissa width, quotients p/q of small integers, NaN/inf/zeros; simplest_from_float: 6 modes x bases "
         "{2,3,4,5,7,8,10,16,36,100,255} x significands {B^k, B^k-1, B^k+1, ~B^k/2, random, 0} for k of every length 1..40 "
-        "(thorough 1..150) x precision {digits, digits+1, +2, +62..66, +127..129, up to +300 (thorough +1500), 0 = unlimited} x "
+        "(thorough 1..150) x precision {digits, digits+1, +2, +62..66, +127..129, up to +300 (thorough +1500), 0 = unlimited (8% of every significand class, plus a DIRECTED grid: every mode x every base x {one digit, two digits, B^k-1, B^k+1, B^k/2 and neighbours, random}, both signs)} x "
         "exponents {0, +-1, around -digits, -precision, +-64, +-128, +-300 (thorough +-2000)} x signs, plus +inf/-inf of every "
-        "mode/base with context precision 0 .. usize::MAX (None). Non-trivial := not an integer-only or equal-end-point "
+        "mode/base with context precision 0 .. usize::MAX (None); eb.bounds (ErrorBounds::error_bounds directly): the same finite float classes, "
+        "every mode/base, limited and unlimited precision. Non-trivial := not an integer-only or equal-end-point "
         "case; distinct := distinct case lines.")
 EXPLANATION = ("Theorems (all integers, all limits): simplest_in returns a reduced fraction strictly inside the interval whose "
                "numerator magnitude and denominator are both minimal among all fractions strictly inside (Stern-Brocot "
@@ -284,9 +290,41 @@ def generate(rng, tier):
     #      infinities carried by a context of any precision
     for _ in range(900 if quick else 20000):
         yield gen_fbig2(rng, tier)
+    # ---- (round 6) DIRECTED: unlimited precision (context precision 0) — every mode x every driven base x significands of
+    #      one digit / two digits / B^k - 1 (carry when cut to fewer digits) / exact half B^k/2 and its neighbours (ties) /
+    #      B^k + 1 / random, both signs: the result must be the number itself (class of the defect repaired by 39e9a8a:
+    #      any arithmetic on the float inside simplest_from_float that rounds to a finite context)
+    for c in unlimited_grid(rng, tier):
+        yield c
+    # ---- (round 6) ErrorBounds::error_bounds called directly (op eb.bounds): the same float classes as simplest_from_float
+    #      (both generators: significands around powers of the base, every base/mode, precision digits+k and 0), finite only
+    for _ in range(700 if quick else 12000):
+        c = gen_fbig2(rng, tier) if rng.random() < 0.6 else gen_fbig(rng, tier)
+        if c.args[2] in ("inf", "-inf", "0", "-0"):
+            continue
+        yield Case("eb.bounds", list(c.args))
+    for c in unlimited_grid(rng, tier):
+        if rng.random() < 0.3:
+            yield Case("eb.bounds", list(c.args))
 
 
 MODES = ["Zero", "Away", "Up", "Down", "HalfAway", "HalfEven"]
+
+
+def unlimited_grid(rng, tier):
+    quick = tier == "quick"
+    for mode in MODES:
+        for b in ALL_BASES:
+            ks = [2, rng.randrange(3, 12)] if quick else [2, 3, rng.randrange(4, 12), rng.randrange(12, 60)]
+            sigs = [rng.randrange(1, b), b + 1, b * rng.randrange(1, b) + rng.randrange(1, b)]
+            for k in ks:
+                half = (b ** k) // 2
+                sigs += [b ** k - 1, b ** k + 1, half, half + 1, max(half - 1, 1), rng.randrange(b ** (k - 1), b ** k)]
+            for s0 in sigs:
+                while s0 % b == 0:
+                    s0 //= b
+                e = rng.choice([0, 0, 1, -1, -ndigits(s0, b), rng.randrange(-20, 21)])
+                yield Case("s.fromfloat", [mode, "d:%d" % b, hx(s0 if rng.random() < 0.5 else -s0), "d:%d" % e, "d:0"])
 
 
 def ndigits(n, b):
@@ -393,7 +431,7 @@ LEVEL_TEXT = ("Machine-checked Lean 4 theorems, for all integers and all limits 
               "the interval being the exact preimage of the float; simplest_from_float (FBig): for every base, mode and precision the "
               "rounding set of a float is proved (builder-float's mode definitions) and the required result is proved to round back "
               "and be the simplest such fraction; the code deviates through ErrorBounds (recorded finding), and the driver reproduces "
-              "the code exactly from four named deviation switches of that model, so every disagreement is attributed; the code side "
+              "the code exactly from three named deviation switches of that model, so every disagreement is attributed; the code side "
               "of the model (error_bounds of all six modes, the half-ulp formula, the early returns and the end-point selection of "
               "simplest_from_float) is proved equal to tables regenerated from the source on every run (Props/C18Gen), the rounding "
               "relation is proved to be builder-float's specRound (Props/C18Link), and the special inputs (infinite -> None, zero, "
@@ -402,6 +440,7 @@ LEVEL_NOTE = ("Trusted: Lean kernel; axioms propext/Classical.choice/Quot.sound;
               "dashu-int ring kernels at their contracts (div_rem / gcd linked to C02 / C12 by theorem). Repaired in /repo after being found here (fixed: lines in "
               "known_findings.jsonl): is_simpler_than conjunction, simplest_in zero end point, next_up/next_down limit = 1 debug "
               "assertion, simplest_from_f32/f64 interval for large floats. Still recorded as a finding: simplest_from_float (FBig) "
-              "through float/src/round.rs ErrorBounds (full ulp below a power of the base, ceil half ulp for odd bases, ulp() of an "
-              "unlimited-precision float, HalfEven tie parity).")
+              "through float/src/round.rs ErrorBounds (full ulp below a power of the base, ceil half ulp for odd bases, HalfEven tie parity). "
+              "Round 6: /repo 164990d (zero-operand float add rounds) made simplest_from_float round an unlimited-precision float to one digit; "
+              "repaired by an early exact return, which also removes the ulp() panic of Away/Up/Down at precision 0 from this function.")
 TECHNIQUE = "Lean 4 proofs (Stern-Brocot descent, Farey determinant invariant) + differential correspondence model vs real code"
